@@ -470,7 +470,29 @@ def materialise(scn, root, conc=None, palette=None):
             os.symlink('nonexistent-target', fp)
     # Manifests, deepest first so that "self" digests (cid = "@path") can be resolved
     written = {}
-    for m in sorted(scn['mfs'], key=lambda m: -len(m['p'])):
+    # referenced Manifests ('@path' atoms) before the ones referencing them, otherwise deepest first
+    pending = sorted(scn['mfs'], key=lambda m: -len(m['p']))
+    ordered = []
+    while pending:
+        progressed = False
+        for m in list(pending):
+            refs = set()
+            for e in m['entries']:
+                for h, c in e['ck']:
+                    if isinstance(c, str) and c.startswith('@'):
+                        refs.add(c[1:])
+                if isinstance(e['size'], str) and e['size'].startswith('@'):
+                    refs.add(e['size'][1:])
+            refs.discard('/'.join(m['p']))
+            if all(r in set('/'.join(x['p']) for x in ordered) or r not in set('/'.join(x['p']) for x in scn['mfs'])
+                   for r in refs):
+                ordered.append(m)
+                pending.remove(m)
+                progressed = True
+        if not progressed:
+            ordered += pending
+            break
+    for m in ordered:
         ents = []
         for e in m['entries']:
             ck = {}
